@@ -500,6 +500,51 @@ fn builtin_spellings(ctx: &Ctx, runs: &AtomicU64, groups: &AtomicU64, samples: &
     });
 }
 
+/// Built-ins with their own argument parsers (`set`, `kill`): documented equivalent spellings
+/// must have identical output, status and effect.
+fn bespoke_spellings(ctx: &Ctx, runs: &AtomicU64) {
+    let u = usage("pwd").unwrap();
+    let groups: Vec<Vec<&str>> = vec![
+        vec!["set -e -u", "set -eu", "set -o errexit -o nounset", "set --errexit --nounset", "set -e -o nounset", "set -eu --", "set -ue"],
+        vec!["set -C x y", "set -C -- x y", "set -o noclobber x y", "set --noclobber x y", "set --noclob x y", "set -C - x y"],
+        vec!["set -e; set +e", "set -e; set +o errexit", "set -e; set ++errexit"],
+        vec!["set -- -e", "set - -e"],
+        vec!["set -a -f", "set -af", "set -o allexport -o noglob", "set --allexport --noglob"],
+        vec!["trap '' TERM; kill -s TERM $$", "trap '' TERM; kill -sTERM $$", "trap '' TERM; kill -TERM $$", "trap '' TERM; kill -n 15 $$", "trap '' TERM; kill -15 $$",
+             "trap '' TERM; kill -s term $$", "trap '' TERM; kill -s SIGTERM $$", "trap '' TERM; kill $$", "trap '' TERM; kill -s TERM -- $$"],
+        vec!["trap 'p T' USR1; kill -s USR1 $$", "trap 'p T' USR1; kill -USR1 $$", "trap 'p T' USR1; kill -s usr1 $$", "trap 'p T' USR1; kill -sUSR1 $$"],
+        vec!["kill -l 15", "kill -l -- 15", "kill -l TERM", "kill -l 399"],
+        vec!["kill -s 0 $$", "kill -0 $$", "kill -n 0 $$"],
+    ];
+    for g in groups {
+        let base = run_invocation(&u, g[0]);
+        runs.fetch_add(1, Relaxed);
+        for s in &g[1..] {
+            let o = run_invocation(&u, s);
+            runs.fetch_add(1, Relaxed);
+            if o != base {
+                ctx.violation(
+                    "c20:bespoke-spelling",
+                    &format!("`{s}` and `{}` differ: {:?}/{:?}/{:?} vs {:?}/{:?}/{:?}", g[0], o.status, o.stderr_empty, o.stdout, base.status, base.stderr_empty, base.stdout),
+                    json!({"builtin": "pwd", "spelling": s, "reference_spelling": g[0]}),
+                );
+            }
+        }
+    }
+    for bad in ["set -Z", "set -o nosuchoption", "set --nosuch", "set -o", "kill -s NOSUCHSIG $$", "kill -s", "kill", "set --no"] {
+        let (same, o) = unchanged(&u, bad);
+        runs.fetch_add(1, Relaxed);
+        let rejected = o.status != "st:0" && !o.stderr_empty;
+        // `set -o` alone prints the options (valid); keep only genuinely malformed ones
+        if bad == "set -o" {
+            continue;
+        }
+        if !rejected || !same {
+            ctx.violation("c20:bespoke-malformed", &format!("malformed `{bad}`: status {:?}, diagnostic {}, unchanged {same}", o.status, !o.stderr_empty), json!({"line": bad}));
+        }
+    }
+}
+
 pub fn replay(case: &serde_json::Value) -> i32 {
     println!("{}", serde_json::to_string_pretty(case).unwrap());
     if let (Some(b), Some(s)) = (case["builtin"].as_str(), case["spelling"].as_str()) {
@@ -575,6 +620,7 @@ pub fn run(tier: Tier) -> i32 {
     let runs = AtomicU64::new(0);
     let groups = AtomicU64::new(0);
     builtin_spellings(&ctx, &runs, &groups, &samples);
+    bespoke_spellings(&ctx, &runs);
     let cat = catalogue();
     let cov = json!({
         "evaluations": evals.load(Relaxed) + startup + runs.load(Relaxed),
